@@ -386,7 +386,7 @@ func loadCorpus(t *testing.T) []string {
 
 func replayCase(sub string, raw json.RawMessage) string {
 	switch sub {
-	case "shape", "ops", "forms", "grid", "corpus-shape":
+	case "shape", "ops", "forms", "grid", "deep", "corpus-shape":
 		var c srcCase
 		if err := json.Unmarshal(raw, &c); err != nil {
 			return "bad replay: " + err.Error()
@@ -561,6 +561,40 @@ func TestC09(t *testing.T) {
 	}
 	rec.Exhaustive(fmt.Sprintf("term-forms-x-suffix-forms(%d bases x %d x %d suffixes)", len(bases), len(sfxs), len(sfxs)), true)
 
+	// (E4) deep and long programs: parser stack growth, printer recursion
+	rep := func(n int, s string) string { return strings.Repeat(s, n) }
+	for _, n := range []int{1, 2, 3, 5, 8, 15, 16, 17, 31, 32, 33, 64, 100, 200} {
+		for _, src := range []string{
+			rep(n, "( ") + ". " + rep(n, ") "),
+			rep(n, "[ ") + ". " + rep(n, "] "),
+			rep(n, "{ a : ") + ". " + rep(n, "} "),
+			rep(n, "- ") + ". ",
+			rep(n, "try ") + ". " + rep(n/2, "catch . "),
+			". " + rep(n, "| . "),
+			". " + rep(n, ", . "),
+			". " + rep(n, "// . "),
+			". " + rep(n, "+ . "),
+			". " + rep(n, "- . * . "),
+			". " + rep(n, "or . and . "),
+			". " + rep(n, "as $x | . "),
+			rep(n, "def f : ") + ". " + rep(n, "; f "),
+			rep(n, "label $l | ") + ". ",
+			rep(n, "if . then ") + ". " + rep(n, "else . end "),
+			". " + rep(n, ".a [ 0 ] ? . \"s\" [ ] . [ 1 : ] "),
+			rep(n, "\"a\\( ") + ". " + rep(n, ")b\" "),
+			rep(n, "reduce ") + ". " + rep(n, "as $x ( . ; . ) "),
+			rep(n, "f ( . ; ") + ". " + rep(n, ") "),
+			". as " + rep(n, "[ ") + "$x " + rep(n, "] ") + rep(n, "?// $x ") + "| . ",
+		} {
+			idx++
+			if !rec.Mine(idx) {
+				continue
+			}
+			directAll("deep", mustTok(src))
+		}
+	}
+	rec.Exhaustive("deep-and-long(20 families x 14 sizes up to 200)", true)
+
 	// (K) corpus
 	corpus := loadCorpus(t)
 	var corpusToks [][]tok
@@ -618,7 +652,7 @@ func TestC09(t *testing.T) {
 	}
 
 	// (R1) shape of generated programs
-	rec.Rapid(t, "shape", rec.Scale(240000, 4000000), func(t *rapid.T) {
+	rec.Rapid(t, "shape", rec.Scale(240000, 6000000), func(t *rapid.T) {
 		ts := genProgram(t, avoid, excl)
 		flush()
 		src := joinToks(ts, " ")
@@ -641,7 +675,7 @@ func TestC09(t *testing.T) {
 
 	// (R2) String() round trip of generated programs, a third of them with
 	// token-level mutations, some built on corpus queries
-	rec.Rapid(t, "roundtrip", rec.Scale(240000, 4000000), func(t *rapid.T) {
+	rec.Rapid(t, "roundtrip", rec.Scale(240000, 6000000), func(t *rapid.T) {
 		var ts []tok
 		origin := "gen"
 		if k := rapid.IntRange(0, 9).Draw(t, "fromcorpus"); k == 0 {
@@ -708,7 +742,7 @@ func TestC09(t *testing.T) {
 	})
 
 	// (R3) re-spacing: same tokens, other whitespace and comments
-	rec.Rapid(t, "respace", rec.Scale(240000, 4000000), func(t *rapid.T) {
+	rec.Rapid(t, "respace", rec.Scale(240000, 6000000), func(t *rapid.T) {
 		var ts []tok
 		origin := "gen"
 		switch k := rapid.IntRange(0, 9).Draw(t, "origin"); {
